@@ -210,7 +210,7 @@ def sym_programs(draw):
     for _ in range(nops):
         kind = draw(st.sampled_from(["bin", "bin", "un", "T", "roll", "stack",
                                      "einsum", "red", "ctor", "where",
-                                     "bad", "alt"]))
+                                     "bad", "alt", "esum", "esum"]))
         i = draw(st.sampled_from([j for j, s in enumerate(shapes)
                                   if s is not None]))
         sh = shapes[i]
@@ -256,6 +256,25 @@ def sym_programs(draw):
                                                       else [])
             add({"op": "einsum", "args": [i, j], "spec": f"{a},{b}->{out}"},
                 osh)
+        elif kind == "esum":
+            # einsum reducing any non-empty subset of (symbolic) axes, of one
+            # operand or of the product of two operands of the same shape
+            if not (1 <= len(sh) <= 3):
+                continue
+            letters = "ijk"[:len(sh)]
+            keep = [draw(st.booleans()) for _ in sh]
+            if all(keep):
+                keep[draw(st.integers(0, len(sh) - 1))] = False
+            out = "".join(c for c, k in zip(letters, keep) if k)
+            osh = [a for a, k in zip(sh, keep) if k]
+            same = [j for j, s in enumerate(shapes) if s == sh]
+            if draw(st.booleans()):
+                j = draw(st.sampled_from(same))
+                add({"op": "einsum", "args": [i, j],
+                     "spec": f"{letters},{letters}->{out}"}, osh)
+            else:
+                add({"op": "einsum1", "args": [i],
+                     "spec": f"{letters}->{out}"}, osh)
         elif kind == "red":
             static = [d for d, a in enumerate(sh) if a in ("1", "2", "3")]
             if not static:
@@ -358,6 +377,8 @@ def build_sym(desc, names=None):
             env.append(pt.stack([a[0], a[1]], axis=nd["axis"]))
         elif op == "einsum":
             env.append(pt.einsum(nd["spec"], a[0], a[1]))
+        elif op == "einsum1":
+            env.append(pt.einsum(nd["spec"], a[0]))
         elif op in ("sum", "amax"):
             env.append(getattr(pt, op)(a[0], axis=nd["axis"]))
         elif op == "zeros":
@@ -431,6 +452,8 @@ def eval_sym(desc, val):
                 env.append(np.stack([a[0], a[1]], axis=nd["axis"]))
             elif op == "einsum":
                 env.append(np.einsum(nd["spec"], a[0], a[1]))
+            elif op == "einsum1":
+                env.append(np.einsum(nd["spec"], a[0]))
             elif op in ("sum", "amax"):
                 env.append(getattr(np, op)(a[0], axis=nd["axis"]))
             elif op == "zeros":
